@@ -150,3 +150,89 @@ pub fn generate(rng: &mut Rng, thorough: bool) -> Vec<Case> {
     }
     cs
 }
+
+/// Family 622: the peer does not wait for the response to its CONNECT request: it opens its first
+/// WebTransport streams right behind the request, while the server application is still deciding
+/// (`accept()` is called `delay` ms after the request arrived).  Every one of them must be delivered once
+/// the session exists (C08, C01).  a[0] = [delay_ms, n_uni, n_bi]
+pub async fn exec_early(a: &Args) -> Args {
+    use wtransport::quinn;
+    let (delay, nu, nb) = (a[0][0], a[0][1] as usize, a[0][2] as usize);
+    let (server, addr) = wt_server(None);
+    let ep = raw_client(None);
+    let srv = tokio::spawn(async move {
+        let incoming = match tokio::time::timeout(T, server.accept()).await { Ok(i) => i, Err(_) => return (None, server) };
+        let req = match tokio::time::timeout(T, incoming).await { Ok(Ok(r)) => r, _ => return (None, server) };
+        tokio::time::sleep(Duration::from_millis(delay)).await;
+        match tokio::time::timeout(T, req.accept()).await { Ok(Ok(c)) => (Some(c), server), _ => (None, server) }
+    });
+    let conn: quinn::Connection = match ep.connect(addr, "localhost") {
+        Ok(c) => match tokio::time::timeout(T, c).await { Ok(Ok(c)) => c, _ => return vec![vec![2]] },
+        Err(_) => return vec![vec![2]],
+    };
+    let mut control = match conn.open_uni().await { Ok(s) => s, Err(_) => return vec![vec![2]] };
+    let _ = control.write_all(&peer_control_bytes()).await;
+    let (mut rs, _rr) = match conn.open_bi().await { Ok(x) => x, Err(_) => return vec![vec![2]] };
+    let _ = rs.write_all(&request_bytes("/early", &[])).await;
+    // no waiting for the response: the streams follow at once
+    let mut keep = vec![];
+    for i in 0..nu {
+        if let Ok(mut s) = conn.open_uni().await {
+            let mut b = vec![0x40u8, 0x54, 0x00];
+            b.extend(format!("early-uni-{}", i).as_bytes());
+            let _ = s.write_all(&b).await;
+            let _ = s.finish();
+            keep.push(s);
+        }
+    }
+    for i in 0..nb {
+        if let Ok((mut s, r)) = conn.open_bi().await {
+            let mut b = vec![0x40u8, 0x41, 0x00];
+            b.extend(format!("early-bi-{}", i).as_bytes());
+            let _ = s.write_all(&b).await;
+            let _ = s.finish();
+            keep.push(s);
+            std::mem::forget(r);
+        }
+    }
+    let (c, server) = match srv.await { Ok(x) => x, Err(_) => return vec![vec![crate::PANIC]] };
+    let Some(c) = c else { return vec![vec![2]] };
+    let (mut gu, mut gb) = (0u64, 0u64);
+    let mut payloads: Vec<Vec<u8>> = vec![];
+    for _ in 0..nu {
+        match tokio::time::timeout(Duration::from_millis(2500), c.accept_uni()).await {
+            Ok(Ok(mut r)) => { gu += 1; let mut d = vec![0u8; 64]; if let Ok(Ok(Some(n))) = tokio::time::timeout(Duration::from_millis(1500), r.read(&mut d)).await { payloads.push(d[..n].to_vec()); } }
+            _ => break,
+        }
+    }
+    for _ in 0..nb {
+        match tokio::time::timeout(Duration::from_millis(2500), c.accept_bi()).await {
+            Ok(Ok((_s, mut r))) => { gb += 1; let mut d = vec![0u8; 64]; if let Ok(Ok(Some(n))) = tokio::time::timeout(Duration::from_millis(1500), r.read(&mut d)).await { payloads.push(d[..n].to_vec()); } }
+            _ => break,
+        }
+    }
+    payloads.sort();
+    payloads.dedup();
+    let intact = payloads.iter().filter(|p| p.starts_with(b"early-")).count() as u64;
+    drop(keep);
+    server.close(vi(0), b"");
+    vec![vec![1, gu, gb, intact]]
+}
+
+pub fn oracle_early(a: &Args, out: &Args) -> Option<(&'static str, String)> {
+    if out[0][0] != 1 {
+        return None;
+    }
+    if out[0][1] != a[0][1] || out[0][2] != a[0][2] || out[0][3] != a[0][1] + a[0][2] {
+        return Some(("C08+C01", format!("the peer opened {} unidirectional and {} bidirectional streams right behind its request ({} ms before the application accepted the session): the application was handed {} and {}, {} distinct intact payloads", a[0][1], a[0][2], a[0][0], out[0][1], out[0][2], out[0][3])));
+    }
+    None
+}
+
+pub fn generate_early(_rng: &mut Rng, thorough: bool) -> Vec<Case> {
+    let mut cs = vec![];
+    for (delay, nu, nb) in if thorough { vec![(0u64, 3u64, 2u64), (50, 3, 2), (400, 3, 2), (400, 4, 1), (1200, 2, 1), (400, 1, 0), (400, 0, 1)] } else { vec![(0, 3, 2), (400, 3, 1), (400, 1, 1)] } {
+        cs.push(Case::new(622, vec![vec![delay, nu, nb]], "streams-before-accept"));
+    }
+    cs
+}
